@@ -67,6 +67,16 @@ RECODERS = {
 }
 
 
+# curves with a `verify_helper_vartime`: (reference expression over P = Q, R, ss = s, kk = k; split_vartime output)
+_I128 = "c0.to_le_bytes().to_vec(), c1.to_le_bytes().to_vec()"
+VERIFY_HELPER = {
+    "p256": ("Point::mulgen(&ss).equals(R + P * kk) != 0", _I128),
+    "secp256k1": ("Point::mulgen(&ss).equals(R + P * kk) != 0", None),
+    "ed25519": ("(Point::mulgen(&ss) - R - P * kk).xdouble(3).isneutral() != 0", _I128),
+    "ed448": ("(Point::mulgen(&ss) - R - P * kk).xdouble(2).isneutral() != 0", "c0.to_vec(), c1.to_vec()"),
+}
+
+
 def module_source(curve):
     d = CURVES[curve]
     F = d["F"]
@@ -164,6 +174,17 @@ def module_source(curve):
         A("            \"recode:%s\" => { %s return vec![sd.iter().map(|x| *x as u8).collect()]; }" % (rname, call))
     if not d.get("wrap"):
         A("            \"vt\" => { let su = Scalar::decode_reduce(&a[a.len() - 2]); let sv = Scalar::decode_reduce(&a[a.len() - 1]); P.set_mul_add_mulgen_vartime(&su, &sv); }")
+    if curve in VERIFY_HELPER:
+        # C10 verification helpers: [helper's Boolean, reference Boolean computed with the plain operations]
+        ref, split = VERIFY_HELPER[curve]
+        A("            \"vh\" => { let R = pt(a, %d); let ss = Scalar::decode_reduce(&a[a.len() - 2]); "
+          "let kk = Scalar::decode_reduce(&a[a.len() - 1]); let h = P.verify_helper_vartime(&R, &ss, &kk); "
+          "let e = %s; return vec![vec![h as u8], vec![e as u8]]; }" % (k, ref))
+        if split:
+            A("            \"split\" => { let kk = Scalar::decode_reduce(&a[a.len() - 1]); "
+              "let (c0, c1) = kk.split_vartime(); return vec![%s]; }" % split)
+        A("            \"low_order\" => { return vec![vec![(P.has_low_order() == 0xFFFFFFFF) as u8]]; }"
+          if "xdouble" in ref else "            \"low_order\" => { return vec![vec![(P.isneutral() != 0) as u8]]; }")
     if curve == "gls254":
         A("            \"vt64\" => { let u0 = u64::from_le_bytes(<[u8; 8]>::try_from(&a[a.len() - 3][..8]).unwrap()); let u1 = u64::from_le_bytes(<[u8; 8]>::try_from(&a[a.len() - 2][..8]).unwrap()); let sv = Scalar::decode_reduce(&a[a.len() - 1]); P.set_mul64mu_add_mulgen_vartime(u0, u1, &sv); }")
         A("            \"mu\" => { P.set_mul(&Scalar::MU); }")
